@@ -73,6 +73,7 @@ Judge ==
        /\ J("C03", "ClosedNeverChanges", ClosedNeverChanges(r))
        /\ J("C03", "CloseTakesEffect", CloseTakesEffect(r))
        /\ J("C06", "FrameOK", FrameOK(r))
+       /\ J("C06", "LeaseActsTouchOnlyTheirLease", LeaseActsTouchOnlyTheirLease(r))
        /\ J("C06", "SignerOK", SignerOK(r))
        /\ J("C07", "Deterministic", Deterministic(r))
        /\ J("C08", "BidAdmission", BidAdmission(r))
